@@ -42,6 +42,15 @@ static int combination(const std::string &ob, bool kf)
             std::cout << "is_integer(" << ee->__str__() << " | n integer, u real) = " << (is_true(qi) ? "true" : is_false(qi) ? "false" : "indeterminate") << "\n";
             if (is_true(qi)) { std::cout << "REPRODUCED: u = 1/2, n = 0 gives a non-integer\n"; bad = 1; }
         }
+        // a coefficient that is neither positive nor negative nor zero (complex, nan, zoo): x + I with x > 0 is not positive
+        {
+            set_basic s4; s4.insert(Gt(x, zero)); Assumptions a4(s4);
+            for (auto &ee : {add(x, I), add(x, Nan), add(add(x, y), I)}) {
+                tribool qp = is_positive(*ee, &a4);
+                std::cout << "is_positive(" << ee->__str__() << " | x > 0) = " << (is_true(qp) ? "true" : is_false(qp) ? "false" : "indeterminate") << "\n";
+                if (is_true(qp)) { std::cout << "REPRODUCED: at x = 1 the value " << ee->subs({{x, integer(1)}, {y, integer(1)}})->__str__() << " is not a positive real\n"; bad = 1; }
+            }
+        }
         if (bad || ob.find("IntegerVisitor") != std::string::npos) return bad;
     }
     if (ob.find("PositiveVisitor.Add") != std::string::npos) { ws.push_back({add(x, y), {{x, integer(1)}, {y, integer(-2)}}}); ws.push_back({add(mul(x, x), integer(1)), {{x, zero}}}); }
